@@ -82,4 +82,12 @@ def run(ctx):
                                idx, kw, b[0], b[1], b[2][0], b[2][1], b[3][0], b[3][1]), derived.GRAMMAR)
     ctx.extra_cov["semantic_cases"] = total
     coverage.run(ctx, mf)
+    # the binding forms expand to applications of lambda expressions: "let evaluates all initialisers outside the scope of its
+    # variables" and "let* scopes them left to right" hold only if every such application — also the one reached through a tail
+    # call, which is what a let in tail position is — binds its parameters in a frame of its own under the frame the lambda was made in
+    ctx.rule("C05-binding-frames", "the application a binding form expands to binds its variables in a new child of the frame the form is "
+                                   "evaluated in, in non-tail and in tail position (application and trampoline tables)")
+    from . import evaltables
+    evaltables.rule_application(ctx, "C05-binding-frames", {"frame", "bind"})
+    evaltables.rule_trampoline(ctx, "C05-binding-frames", {"frame"})
     return EXPLANATION, NOT_DECIDED
